@@ -78,16 +78,18 @@ def _strategy(out):
         for n in out.optimize(fuse=False).expr.walk():
             nm = type(n).__name__
             if nm == "BroadcastJoin":
+                # the side that is NOT broadcast is hash-split per partition; is it joined on its index?
+                other_on_index = bool(n.right_index if n.broadcast_side == "left" else n.left_index)
                 if top is not None and top.broadcast_side != n.broadcast_side:
-                    return "broadcast-side-flipped"
-                return "broadcast-" + n.broadcast_side
+                    return "broadcast-side-flipped", other_on_index
+                return "broadcast-" + n.broadcast_side, other_on_index
             if nm == "HashJoinP2P":
-                return "p2p"
+                return "p2p", False
             if nm == "BlockwiseMerge":
-                return "hash" if any("Shuffle" in type(m).__name__ for m in n.walk()) else "blockwise"
+                return ("hash" if any("Shuffle" in type(m).__name__ for m in n.walk()) else "blockwise"), False
     except Exception:  # noqa: BLE001 - label only; the failure itself is reported by the compute below
-        return "unknown"
-    return "other"
+        return "unknown", False
+    return "other", False
 
 
 def check_merge(spec):
@@ -118,7 +120,7 @@ def check_merge(spec):
         dkw["indicator"] = op["indicator"]
     with impl("merge", **sig), C.quiet(), _cfg(op["method"]):
         out = dd.merge(ld, rd, **dkw)
-        sig["strategy"] = _strategy(out)
+        sig["strategy"], sig["bcast_other_on_index"] = _strategy(out)
     count("strategy-" + sig["strategy"])
     with impl("merge", **sig), C.quiet(), _cfg(op["method"]):
         got = F.compute(out)
